@@ -19,7 +19,7 @@ import (
 // caseSpec is one generated case.
 type caseSpec struct {
 	No       int     `json:"no"`
-	Mode     string  `json:"mode"` // seq | lin | idle | cancel
+	Mode     string  `json:"mode"` // seq | lin | idle | cancel | stale | hold
 	Seed     uint64  `json:"seed"`
 	DelaysUS []int64 `json:"delays_us"`
 	Rate     int     `json:"rate"`
@@ -74,7 +74,9 @@ type caseLog struct {
 	Stale   map[string]int64 `json:"stale,omitempty"`
 	StaleEx []map[string]any `json:"stale_examples,omitempty"`
 	Hung    bool             `json:"hung,omitempty"`
-	Skip    string           `json:"skip,omitempty"`
+	// hold mode: one record per round
+	Hold []holdRound `json:"hold,omitempty"`
+	Skip string      `json:"skip,omitempty"`
 	// idle mode: quiescent observation
 	Touched  bool  `json:"touched,omitempty"`
 	FinalLvl int64 `json:"final_lvl,omitempty"`
@@ -132,6 +134,8 @@ func worker(args []string) {
 						done <- runLin(s)
 					case "stale":
 						done <- runStale(s)
+					case "hold":
+						done <- runHold(s)
 					default:
 						done <- runIdle(s)
 					}
